@@ -45,6 +45,18 @@ POOL = [
     ("[u8; 0]", ["[]"], ALL),
     ("::core::marker::PhantomData<::std::string::String>", ["::core::marker::PhantomData"], ALL),
     ("&'static &'static u8", ["&R0", "&R1"], ALL),
+    ("::core::cell::Cell<u8>", ["::core::cell::Cell::new(0)", "::core::cell::Cell::new(3)"], NOCOPY - {"Hash"}),
+    ("::core::option::Option<&'static mut u8>", ["::core::option::Option::None", "::core::option::Option::Some(::std::boxed::Box::leak(::std::boxed::Box::new(1u8)))",
+                                                 "::core::option::Option::Some(::std::boxed::Box::leak(::std::boxed::Box::new(2u8)))"],
+     {"Debug", "PartialEq", "Eq", "PartialOrd", "Ord", "Hash"}),
+    ("::std::vec::Vec<::core::option::Option<(u8, [u8; 2])>>", ["::std::vec::Vec::new()", "vec![::core::option::Option::Some((1, [2, 3]))]",
+                                                               "vec![::core::option::Option::Some((1, [2, 4])), ::core::option::Option::None]"], NOCOPY),
+    ("::std::rc::Rc<str>", ["::std::rc::Rc::from(\"a\")", "::std::rc::Rc::from(\"b\")", "::std::rc::Rc::from(\"\")"], NOCOPY),
+    ("::std::borrow::Cow<'static, str>", ["::std::borrow::Cow::Borrowed(\"a\")", "::std::borrow::Cow::Owned(::std::string::String::from(\"a\"))",
+                                          "::std::borrow::Cow::Borrowed(\"b\")"], NOCOPY),
+    ("::core::num::NonZeroU8", ["::core::num::NonZeroU8::new(1).unwrap()", "::core::num::NonZeroU8::new(255).unwrap()"], ALL),
+    ("(u8, u8, u8, u8, u8, u8, u8, u8, u8, u8, u8, u8)", ["(0, 0, 0, 0, 0, 0, 0, 0, 0, 0, 0, 0)", "(0, 0, 0, 0, 0, 0, 0, 0, 0, 0, 0, 1)"], ALL),
+    ("::core::time::Duration", ["::core::time::Duration::from_secs(0)", "::core::time::Duration::from_millis(1500)"], ALL),
 ]
 
 # trait sets per property: (educed traits in dependency order, which comparisons the program performs)
